@@ -53,6 +53,7 @@ def enc_cases(rng, tier, tag):
         cases += G.small_scope_cases(tag + 'ss', 2)
     cases += G.big_ctx_cases(rng.fork('bigctx'), tag + 'bc', tier == 'thorough')
     cases += G.wrap_cases(rng.fork('wrapseg'), tag + 'wr', tier == 'thorough')
+    cases += G.many_msg_cases(rng.fork('manymsg'), tag + 'mm', tier == 'thorough')
     cases += G.inplace_edit_cases(rng.fork('inplace'), tag + 'ip', 60 if tier == 'quick' else 3000)
     cases += G.container_cases(rng.fork('containers'), tag + 'ct', 12 if tier == 'quick' else 300)
     return cases
@@ -71,7 +72,7 @@ def run_c01(res, rng):
         return [l if l.startswith('K ') else 'N ' + l.split()[1] for l in lines if l.startswith(('K ', 'N '))] + anomalies(lines)
     correspondence(res, cases, proj, G.judge_c01, 'encode-then-decode')
     res.cov['rule'] = ('batches from one splitmix64 stream: 1-6 (quick) / 1-12 (thorough) packets over all payload kinds, lengths aimed at cap-16+-2, k*(cap-16)+-1, 1..3, 65535; '
-                       'max in {25,26,33,40,41,64,100,256,1500,65559,random} plus {65535..65561, 65600, 80000, 131072, 200000} with frame-filling packets and with several large packets aggregated into frames longer than 65535 bytes; batches handed over as vector / shared_ptr vector / list / deque (17-40 packets, crossing the blocks of the deque) / reverse iterators; batches whose packets had their payload edited in place (grown past the frame / shrunk) after the packet took it over; batches encoded after 65531..65535 earlier frames so that segment chains straddle the counter wrap;, min in {0,8,24,used-1,used,used+1,max-1,max,random}; plus all batches of <=2 (quick) / <=3 (thorough) packets over boundary lengths x {data,status} x 4 frame sizes x min in {0,max}. '
+                       'max in {25,26,33,40,41,64,100,256,1500,65559,random} plus {65535..65561, 65600, 80000, 131072, 200000} with frame-filling packets and with several large packets aggregated into frames longer than 65535 bytes; batches handed over as vector / shared_ptr vector / list / deque (17-40 packets, crossing the blocks of the deque) / reverse iterators; batches whose packets had their payload edited in place (grown past the frame / shrunk) after the packet took it over; batches encoded after 65531..65535 earlier frames so that segment chains straddle the counter wrap; frames that aggregate exactly 255 / 256 / 257 (thorough: up to 65537) small messages followed by a packet that does not fit the rest, and batches of 257 one-frame packets;, min in {0,8,24,used-1,used,used+1,max-1,max,random}; plus all batches of <=2 (quick) / <=3 (thorough) packets over boundary lengths x {data,status} x 4 frame sizes x min in {0,max}. '
                        'non-trivial = distinct (ctx, type/length profile) whose batch is segmented or aggregates >= 2 packets')
     res.cov['distinct_nontrivial'] = nontrivial(cases)
     res.cov['input_distribution'] = dist_stats(cases)
@@ -246,6 +247,13 @@ def gen_c10(rng, cid, thorough, long_history=None):
     for p in batch:
         lines.append(G.pkt_line(slot, p)); idx.append(slot); slot += 1
     enc = 'ENC %d %d %s' % (minb, maxb, ' '.join(map(str, idx)))
+    if not long_history and rng.chance(1, 3):
+        # the call right before is RELATED to the one under test: same version and message type, frame sizes that agree in their low
+        # 16 (or 8) bits or differ by one, same / swapped minimum - whatever an encoder might remember about "the same configuration"
+        rel = G.plain_packet(rng, batch[0]['ver'], rng.choice([1, 8, 30]), batch[0]['mt'] if 'mt' in batch[0] else 1)
+        lines.append(G.pkt_line(slot, rel))
+        mprev = maxb + rng.choice([65536, 131072, 1 << 20, 256, 1, -1 if maxb > 25 else 1, 65536 + 256])
+        lines.append('ENC %d %d %d' % (rng.choice([0, minb if minb <= mprev else 0]), mprev, slot)); slot += 1
     lines += ['EGET', 'B-MARK', enc, 'ENEW', 'EDEV %d' % dev, 'ESTR %d' % stream, 'B-MARK', enc]
     lines = [l for l in lines]
     return Case(cid, [l if l != 'B-MARK' else 'EGET' for l in lines], dict(batch=batch, min=minb, max=maxb, dev=dev, stream=stream))
@@ -285,6 +293,6 @@ def run_c10(res, rng):
     for i, h in enumerate([65533, 65534, 65530] if res.tier == 'quick' else [65535, 65534, 65533, 65532, 65531, 65530, 65529, 65520, 65500, 131069]):
         cases.append(gen_c10(rng.fork('w%d' % i), 'w%d' % i, False, long_history=h))
     correspondence(res, cases, proj_f, judge_c10, 'history independence')
-    res.cov['rule'] = 'pairs (history of 1-6 earlier encode calls with random batches/contexts - one in eight of them leaving by exception (minimum size SIZE_MAX) -, batch+context); the same batch is then encoded on a fresh encoder with the same ids; plus histories of 65500..65535 (131069) earlier frames so that the final batch straddles the counter wrap; judge: frames equal apart from a constant counter offset; non-trivial = the final batch needs segmentation'
+    res.cov['rule'] = 'pairs (history of 1-6 earlier encode calls with random batches/contexts - one in eight of them leaving by exception (minimum size SIZE_MAX) -, batch+context); the same batch is then encoded on a fresh encoder with the same ids; in a third of the pairs the call right before uses the same version and message type and a frame size that agrees with the tested one in its low 16 / 8 bits (+65536, +131072, +2^20, +256) or differs by one; plus histories of 65500..65535 (131069) earlier frames so that the final batch straddles the counter wrap; judge: frames equal apart from a constant counter offset; non-trivial = the final batch needs segmentation'
     res.cov['distinct_nontrivial'] = len(set(tuple(c.lines) for c in cases if 'batch' in c.meta and any(16 + len(p['payload']) > c.meta['max'] - 8 for p in c.meta['batch'])))
     res.cov['samples'] = [sample_case(c, 8) for c in cases[:2]]
